@@ -48,6 +48,14 @@ def c06(ctx):
     rep.rule("C06.R6", "decay law (oracle-free, from the statement 'an array counts as its sequence length'): for plus, subtract, multiply, "
              "divide, equals, compare and every scalar kind K, cell(Array, K) = cell(Number, K) and cell(K, Array) = cell(K, Number); "
              "negate(Array) = negate(Number)")
+    rep.rule("C06.R8", "EVAL-ONCE / single addressing: in ExecStmt, ProduceVal and WriteVal (and their helpers) a child of a syntax-tree node "
+             "reaches at most one evaluation site (visit call or helper delegation, helpers summarised by what they evaluate) on every "
+             "path, and no site re-evaluates the same child in a loop; the re-evaluations by design are a reviewed table (loop "
+             "condition and body, read-then-write of a compound assignment's destination, the drill-down over nested subscripts). "
+             "A target addressed twice (read here, written there) lets a side-effecting subscript select two different slots")
+    rep.rule("C06.R9", "nested subscripts of a write target are collected while walking from the outermost subscript inwards and are "
+             "therefore applied in the reverse of the collection order: the sequence they are pushed to is consumed by pop() (or a "
+             "reversed iterator), and every index_or_insert on the path takes its key from that sequence")
     rep.rule("C06.R7", "evaluate, then write: in every ExecStmt statement method no expression is evaluated (ProduceVal visit) after a write "
              "through a WriteVal has started, and the write is not inside an evaluation loop")
     # ---- R1
@@ -72,6 +80,7 @@ def c06(ctx):
     rep.notes["val_type_closure"] = sorted(t.s for t in clo.values())[:40]
     # ---- R2
     n_unsafe = 0
+    rep.both_profiles("C06.R2")
     for prof, FF in sorted(ctx.facts.items()):
         for fn in FF.all_fns(tests=False):
             if not fn.file.startswith("src/exec/"):
@@ -232,3 +241,138 @@ def c06(ctx):
                                   "updated value" % (fn.path, fn.term(late[0])["line"], wt["line"]) if late else "%s writes inside a loop" % fn.path),
                    fn.loc(wt["line"]), how="no evaluation reachable from the write")
     rep.floor("C06.R7", n7, 10, "write sites in ExecStmt methods")
+    # ---- R8 single addressing (EVAL-ONCE)
+    from . import evalonce
+    evalonce.run(ctx, "C06.R8", evalonce.REVIEWED, 40)
+    # ---- R9 nested subscripts are applied innermost-first
+    subscript_order(ctx)
+
+
+
+def subscript_order(ctx):
+    """C06.R9: WriteVal::visit_array_subscript applies the collected subscripts innermost-first."""
+    F = ctx.F
+    rep = ctx.rep
+    top = None
+    for fn in F.all_fns(tests=False):
+        if fn.kind != "closure" and fn.path.startswith("<exec::write_val::WriteVal") and fn.path.endswith("::visit_array_subscript"):
+            top = fn
+    if top is None:
+        rep.floor("C06.R9", 0, 1, "WriteVal::visit_array_subscript")
+        return
+    n = 0
+    for body in F.with_closures(top):
+        seqs = {}
+        for i, l in enumerate(body.locals):
+            ty = body.local_ty(i)
+            if ty.kind() == "adt" and (ty.adt() or "").rsplit("::", 1)[-1] in ("SmallVec", "Vec", "VecDeque", "ArrayVec") and "exec::val::Val" in ty.s:
+                if body.local_name(i):
+                    seqs[i] = body.local_name(i)
+        if not seqs:
+            continue
+        rep.analysed(body)
+        # collection: pushes in the walk
+        for l, name in sorted(seqs.items()):
+            producers, consumers = [], []
+            for bi, t in body.calls():
+                if not t["args"] or any(m in ("smallvec", "vec") for m in (t.get("mac") or [])):
+                    continue
+                a0 = t["args"][0]
+                roots = {d for d, p in origins(body, a0)}
+                pl = op_place(a0)
+                touches = (pl is not None and pl["l"] == l) or ("local", l) in roots or any(d[0] == "ref" and d[1] == l for d in roots)
+                if not touches:
+                    # &mut seq taken in an earlier statement
+                    touches = _refs_local(body, a0, l)
+                if not touches:
+                    continue
+                nm = t["callee"].get("name")
+                if nm in ("push", "push_back", "extend", "insert"):
+                    producers.append((bi, t, nm))
+                elif nm in ("drop", "drop_in_place", "deref", "deref_mut", "len", "is_empty", "as_ref", "as_mut"):
+                    if nm in ("deref", "deref_mut", "as_ref", "as_mut"):
+                        consumers.append((bi, t, nm))
+                else:
+                    consumers.append((bi, t, nm))
+            if not producers:
+                continue
+            n += 1
+            lifo_ok = True
+            why = ""
+            for bi, t, nm in consumers:
+                if nm in ("pop", "pop_back"):
+                    continue
+                if nm in ("iter", "into_iter", "drain", "deref", "deref_mut", "as_ref", "iter_mut"):
+                    # must be reversed before use
+                    if not _flows_to_call_named(body, bi, ("rev",)):
+                        lifo_ok = False
+                        why = "the collected subscripts `%s` are consumed by %s() without rev(): they are applied in collection order (outermost first), i.e. `x at i at j at k` addresses x[j][i][k]" % (name, nm)
+                    continue
+                if nm in ("push_front",):
+                    continue
+                lifo_ok = False
+                why = "the collected subscripts `%s` are consumed by %s(): order of application not recognised as the reverse of the collection order" % (name, nm)
+            if not consumers:
+                lifo_ok = False
+                why = "the collected subscripts `%s` are never consumed" % name
+            rep.ob("C06.R9", "subscripts-applied-in-reverse::%s" % name, lifo_ok, why, body.loc(producers[0][1]["line"]), how="pushed while walking inwards, consumed by pop()")
+            # every index_or_insert in this body takes its key from the sequence
+            for bi, t in body.calls():
+                if t["callee"].get("name") == "index_or_insert" and len(t["args"]) >= 2:
+                    srcs = _deep_call_names(body, t["args"][1])
+                    ok = bool(srcs & {"pop", "pop_back", "next", "next_back"})
+                    rep.ob("C06.R9", "key-from-sequence::%s#%d" % (name, bi if False else 0), ok,
+                           "" if ok else "an index_or_insert on the write path takes its key from %s, not from the collected subscripts: the subscripts are not applied as one innermost-first chain" % (sorted(srcs) or "a value outside the sequence"),
+                           body.loc(t["line"]), how="key popped from the sequence")
+    rep.floor("C06.R9", n, 1, "subscript sequences in WriteVal::visit_array_subscript")
+
+
+def _refs_local(body, operand, l, depth=0):
+    pl = op_place(operand)
+    if pl is None or depth > 6:
+        return False
+    if pl["l"] == l:
+        return True
+    for d in body.defs().get(pl["l"], []):
+        if d[0] == "stmt":
+            rv = d[3]["rv"]
+            for k in ("ref", "addr", "use", "copy", "move"):
+                if k in rv and isinstance(rv[k], dict):
+                    inner = rv[k] if "l" in rv[k] else op_place(rv[k])
+                    if inner is not None and (inner["l"] == l or _refs_local(body, {"copy": inner}, l, depth + 1)):
+                        return True
+    return False
+
+
+def _flows_to_call_named(body, src_bb, names, depth=0, seen=None):
+    seen = seen if seen is not None else set()
+    if src_bb in seen or depth > 8:
+        return False
+    seen.add(src_bb)
+    for bi, t in body.calls():
+        if bi == src_bb:
+            continue
+        if any(common.flows_into(body, src_bb, a) for a in t["args"][:1]):
+            if t["callee"].get("name") in names:
+                return True
+            if t["callee"].get("name") in ("iter", "into_iter", "deref", "deref_mut", "as_ref", "by_ref", "iter_mut", "as_slice"):
+                if _flows_to_call_named(body, bi, names, depth + 1, seen):
+                    return True
+    return False
+
+
+def _deep_call_names(body, operand):
+    out = set()
+    seen = set()
+    work = [operand]
+    g = 0
+    while work and g < 60:
+        g += 1
+        o = work.pop()
+        for d, p in origins(body, o):
+            if d[0] == "call" and d[1] not in seen:
+                seen.add(d[1])
+                t = body.term(d[1])
+                out.add(t["callee"].get("name") or "?")
+                work.extend(t["args"])
+    return out
